@@ -300,6 +300,21 @@ func runClosures(raw json.RawMessage) (res *Result, err error) {
 			if a1 != a2 {
 				invariant = fmt.Sprintf("with the read-only flag set the closures no longer decide: %s / read-only: %s", a1, a2)
 			}
+			// an installed validity closure is the ONLY judge, also of an instance the
+			// built-in rules would turn down (a Condition without operator, an empty Stack)
+			if in.Cond && invariant == "" {
+				var bare stk.Condition
+				bare.Init()
+				bare.SetKeyword("kw")
+				bare.SetValidityPolicy(func(...any) error { return nil })
+				if e := bare.Valid(); e != nil {
+					invariant = fmt.Sprintf("an accepting validity closure on a Condition without operator: Valid() = %v", e)
+				}
+				bare.SetValidityPolicy(func(...any) error { return errors.New("no") })
+				if bare.Valid() == nil && invariant == "" {
+					invariant = "a rejecting validity closure on a Condition without operator: Valid() = nil"
+				}
+			}
 		}()
 	}
 	return &Result{Coq: coq, Observed: recs, Tags: tags, Nontrivial: nset >= 2, Invariant: invariant}, nil
